@@ -389,9 +389,9 @@ def _run_harness_once(pid, tier, seed, outdir, replay, mode, timeout):
     return rc, out
 
 
-def run_shard(path):
+def run_shard(path, limit=1500):
     d = os.path.dirname(path)
-    rc, out = sh(["timeout", "1500", "coqc", "-Q", os.path.join(COQ, "theories"), "AM", path], cwd=d)
+    rc, out = sh(["timeout", str(limit), "coqc", "-Q", os.path.join(COQ, "theories"), "AM", path], cwd=d)
     flat = re.sub(r"\s+", " ", out)
     res = {}
     for name in ("M", "V"):
@@ -539,6 +539,18 @@ def _check(pid, tier, replay=None):
                     mism.append((path, i))
                 for i in res["V"]:
                     modelviol.append((path, i))
+        # a shard that was killed by its time limit (an overloaded machine) is evaluated once more, alone, with a
+        # longer limit, before it counts as broken
+        retry, shard_fail = shard_fail, []
+        for path, tail in retry:
+            path, rc2, res, out2 = run_shard(path, limit=4000)
+            if rc2 != 0 or res["M"] is None or res["V"] is None:
+                shard_fail.append((path, out2[-500:]))
+                continue
+            for i in res["M"]:
+                mism.append((path, i))
+            for i in res["V"]:
+                modelviol.append((path, i))
     for path, tail in shard_fail:
         broken.append("case file failed to evaluate: %s: %s" % (os.path.basename(path), tail.strip()[-300:]))
 
